@@ -605,3 +605,83 @@ Proof.
   { destruct e; try (apply Henv; discriminate). destruct (N.le_gt_cases (dmax d) v); [assumption|]. exfalso. apply NF. auto. }
   exact (conj (proj1 (safe_if_ahead d v W D)) (proj1 (proj2 (safe_if_ahead d v W D)))).
 Qed.
+
+(* ---------- OnStartedLeading: the leader flag is raised only after the base is installed ---------- *)
+
+Definition node_inv (x : node) : Prop :=
+  match n_pc x with
+  | CbLeading v => v <= deal (n_lead x)
+  | CbInstalled v => v <= deal (n_lead x) /\ n_flag x = false
+  | _ => n_flag x = false
+  end.
+
+Lemma node_inv0 : node_inv node0.
+Proof. reflexivity. Qed.
+
+Lemma node_inv_step x l : node_inv x -> node_inv (fst (nstep x l)).
+Proof.
+  unfold node_inv. destruct l as [v| | |]; cbn [nstep].
+  - destruct (n_pc x) eqn:P; cbn [fst n_pc n_flag]; rewrite ?P; auto.
+  - destruct (n_pc x) eqn:P; cbn [fst n_pc n_flag n_lead]; rewrite ?P; auto.
+    intros F. split; [|exact F]. unfold set_current; cbn [deal].
+    destruct (deal (n_lead x) <? v) eqn:L; [lia|apply N.ltb_ge in L; exact L].
+  - destruct (n_pc x) eqn:P; cbn [fst n_pc n_flag n_lead]; rewrite ?P; auto. intros [H _]. exact H.
+  - destruct (n_flag x) eqn:F; cbn [fst n_pc n_flag n_lead]; [|rewrite F; auto].
+    destruct (n_pc x) eqn:P; try congruence; [intros [_ H]; congruence|]. intros H. cbn [deal]. lia.
+Qed.
+
+(* the leader flag implies that the parsed version has been installed (IsLeader() => base set) *)
+Lemma flag_implies_installed x : node_inv x -> n_flag x = true -> exists v, n_pc x = CbLeading v /\ v <= deal (n_lead x).
+Proof.
+  unfold node_inv. intros I F. destruct (n_pc x) eqn:P; try congruence; [destruct I; congruence|]. eauto.
+Qed.
+
+Lemma leading_stable v ls : forall x, n_pc x = CbLeading v -> n_pc (fst (nrun x ls)) = CbLeading v.
+Proof.
+  induction ls as [|l tl IH]; intros x P; [exact P|]. cbn [nrun].
+  destruct (nstep x l) as [x1 o] eqn:S. specialize (IH x1).
+  destruct (nrun x1 tl) as [x2 os]. cbn [fst] in *. apply IH.
+  destruct l as [w| | |]; cbn [nstep] in S; rewrite ?P in S.
+  - injection S as <- _. exact P.
+  - injection S as <- _. exact P.
+  - injection S as <- _. exact P.
+  - destruct (n_flag x); injection S as <- _; [reflexivity|exact P].
+Qed.
+
+(* every revision handed out by the node — whatever the interleaving of client requests with the
+   steps of the callback — is above the version the callback installed *)
+Lemma admitted_above ls : forall x, node_inv x ->
+  forall r, In (Some r) (snd (nrun x ls)) -> exists v, n_pc (fst (nrun x ls)) = CbLeading v /\ v < r.
+Proof.
+  induction ls as [|l tl IH]; intros x I r Hin; [destruct Hin|]. cbn [nrun] in *.
+  pose proof (node_inv_step x l I) as I1.
+  destruct (nstep x l) as [x1 o] eqn:S. cbn [fst] in I1.
+  pose proof (IH x1 I1 r) as IH1. pose proof (leading_stable) as St.
+  destruct (nrun x1 tl) as [x2 os] eqn:R. cbn [fst snd] in *.
+  destruct Hin as [E|Hin]; [|apply IH1; exact Hin].
+  subst o. destruct l as [w| | |]; cbn [nstep] in S.
+  - destruct (n_pc x); discriminate.
+  - destruct (n_pc x); discriminate.
+  - destruct (n_pc x); discriminate.
+  - destruct (n_flag x) eqn:F; [|discriminate]. injection S as <- <-.
+    destruct (flag_implies_installed x I F) as [v [P L]]. exists v. split; [|lia].
+    specialize (St v tl (mkNode (n_pc x) (mkL (deal (n_lead x) + 1) (deal (n_lead x) + 1)) true) P).
+    rewrite R in St. exact St.
+Qed.
+
+Lemma node_inv_run ls : forall x, node_inv x -> node_inv (fst (nrun x ls)).
+Proof.
+  induction ls as [|l tl IH]; intros x Ix; [exact Ix|]. cbn [nrun].
+  pose proof (node_inv_step x l Ix) as H. destruct (nstep x l) as [x1 o]. specialize (IH x1 H).
+  destruct (nrun x1 tl). exact IH.
+Qed.
+
+Lemma flag_after_install ls :
+  let '(x, os) := nrun node0 ls in
+  (n_flag x = true -> exists v, n_pc x = CbLeading v /\ v <= deal (n_lead x)) /\
+  (forall r, In (Some r) os -> exists v, n_pc x = CbLeading v /\ v < r).
+Proof.
+  pose proof (admitted_above ls node0 node_inv0) as A.
+  pose proof (node_inv_run ls node0 node_inv0) as I.
+  destruct (nrun node0 ls) as [x os]. cbn [fst snd] in *. split; [apply flag_implies_installed; exact I|exact A].
+Qed.
